@@ -4,7 +4,7 @@
 (*        lazily imports module mreal, whose body imports mint and loads D, and mint loads B: the   *)
 (*        shape of data/real.py and data/integer.py.  Operations: loads, faults, module imports.    *)
 (* edit:  P <- Q, Q has three items; loads of Q with limits, items inserted / deleted in Q and P.   *)
-(* files: P <- X <- B, P <- W, and A (not there initially; created with the import P): A takes the   *)
+(* files: P <- X <- B, P <- W, and A (not there initially; created as a copy of X, import P): A takes *)
 (*        place of X among the imports of B, X gets / loses the import W, A is removed again.       *)
 EXTENDS C12_Loader
 NoImports == <<>>
@@ -15,18 +15,20 @@ cModules == {"mreal","mint"}
 cLazy == [tt \in cTheories |-> IF tt = "B" THEN "mreal" ELSE "none"]
 cBody == [mm0 \in cModules |-> IF mm0 = "mreal" THEN << <<"import","mint">>, <<"load","D">> >> ELSE << <<"load","B">> >>]
 cItems0 == [tt \in cTheories |-> <<1, 2>>]
+cOrigin == [tt \in cTheories |-> tt]
 cLimits == [tt \in cTheories |-> {0}]
 \* mechanisms: {} has the property; {"staledeps"} is logic/basic.py before the import walk re-read changed files; one more deviation each
 Fixed == {{}}
 AsCoded == {{"staledeps"}}
-cVariants == {{}, {"norestore"}, {"tsfirst"}, {"staledeps"}, {"staledeps", "norestore"}, {"staledeps", "tsfirst"}}
-eVariants == {{}, {"limitpos"}, {"staledeps"}, {"staledeps", "limitpos"}}
-fVariants == {{}, {"stalemeta"}, {"keepentry"}, {"staledeps"}, {"staledeps", "stalemeta"}, {"staledeps", "keepentry"}}
+cVariants == {{"tsfirst"}, {"staledeps"}, {"staledeps", "norestore"}, {"staledeps", "tsfirst"}}
+eVariants == {{}, {"limitpos"}}
+fVariants == {{}, {"stalemeta"}, {"staledeps"}, {"staledeps", "keepentry"}}
 \* ---- edit
 eTheories == {"P","Q"}
 eImports == [tt \in eTheories |-> IF tt = "Q" THEN <<"P">> ELSE <<>>]
 eLazy == [tt \in eTheories |-> "none"]
 eBody == [mm0 \in {} |-> <<>>]
+eOrigin == [tt \in eTheories |-> tt]
 eItems0 == [tt \in eTheories |-> IF tt = "Q" THEN <<1, 2, 3>> ELSE <<1>>]
 eLimits == [tt \in eTheories |-> IF tt = "Q" THEN {0, 2, 3} ELSE {0}]
 eFileOps == { <<"ins", "Q", 0, NoImports>>, <<"ins", "Q", 2, NoImports>>, <<"del", "Q", 0, NoImports>>, <<"del", "Q", 1, NoImports>>,
@@ -35,6 +37,7 @@ eFileOps == { <<"ins", "Q", 0, NoImports>>, <<"ins", "Q", 2, NoImports>>, <<"del
 fTheories == {"P","X","W","A","B"}
 fImports == [tt \in fTheories |-> CASE tt = "P" -> <<>> [] tt = "X" -> <<"P">> [] tt = "W" -> <<"P">> [] tt = "A" -> <<"P">> [] tt = "B" -> <<"X">>]
 fLazy == [tt \in fTheories |-> "none"]
+fOrigin == [tt \in fTheories |-> IF tt = "A" THEN "X" ELSE tt]       \* A is created as a copy of X
 fItems0 == [tt \in fTheories |-> <<1>>]
 fLimits == [tt \in fTheories |-> {0}]
 fPresent == {"P","X","W","B"}
